@@ -3,7 +3,9 @@
     Executable, total, proof-free.
 
     A labelled transition system whose labels are the atomic actions of single goroutines:
-    - [LRegister p m]            Mux.Handle(p, m, h)                       (under mux.mu)
+    - [LRegister p m]            Mux.Handle(p, m, h) (under mux.mu).  If Handle rejects the route it panics; the label
+                                 stands for "the caller recovered and goes on using the Mux": the table keeps the trie
+                                 nodes parseRoute had created before it found the error ([handle_attempt])
     - [LBegin k choice path m]   request k: storePool.Get() (the result is ANY pooled Store, [Some i],
                                  or a fresh one from New, [None]), id = AppendUint(id, AddUint64(&storeID,1), 36),
                                  findRoute, store.I = info or routeNotFound; the relay handler is entered
@@ -20,8 +22,7 @@
 
     ASSUMPTION made explicit in enabledness: [LRegister] is enabled only while no request is in
     flight (ServeHTTP walks the trie without the mutex; registering during requests is a data
-    race in the code and outside the property).  A rejected registration (Handle panics) is
-    [Disabled]: the property speaks about successfully registered routes. *)
+    race in the code and outside the property). *)
 From Coq Require Import List NArith Bool Arith.
 Import ListNotations.
 From Glb Require Import Lib.RouteBytes Model.Router.
@@ -58,7 +59,7 @@ Record flight := { f_key : nat; f_store : store; f_info : option nat;
 
 Record mux := {
   m_table : table;
-  m_routes : list (list N * list N);   (* history variable: the routes accepted so far; read by no operation *)
+  m_routes : list (list N * list N);   (* history variable: the registration ATTEMPTS so far, accepted or rejected; read by no operation *)
   m_prefix : list N;
   m_pool : list store;
   m_next_id : N;                       (* Mux.storeID *)
@@ -120,11 +121,8 @@ Definition step_gen (push : vslice -> list N -> option vslice) (reset_k : bool) 
     match m_flights m with
     | _ :: _ => Disabled
     | [] =>
-      match handle (m_table m) p meth with
-      | None => Disabled
-      | Some t' => Ok {| m_table := t'; m_routes := m_routes m ++ [(p, meth)]; m_prefix := m_prefix m;
-                         m_pool := m_pool m; m_next_id := m_next_id m; m_flights := m_flights m |}
-      end
+      Ok {| m_table := handle_attempt (m_table m) p meth; m_routes := m_routes m ++ [(p, meth)]; m_prefix := m_prefix m;
+            m_pool := m_pool m; m_next_id := m_next_id m; m_flights := m_flights m |}
     end
   | LBegin k choice path meth =>
     match find_flight k (m_flights m) with
@@ -216,7 +214,7 @@ Definition observe (m : mux) (k : nat) (names : list (list N)) : option obs :=
   | None => None
   end.
 
-(** the same request on a FRESH Mux on which exactly [routes] were registered *)
+(** the same request on a FRESH Mux on which exactly [routes] were registered, all of them accepted *)
 Definition fresh_core (routes : list (list N * list N)) (path method : list N) (names : list (list N))
   : option (target * list (option (list N)) * option (list N)) :=
   match register_all routes with
@@ -226,6 +224,14 @@ Definition fresh_core (routes : list (list N * list N)) (path method : list N) (
     | _ => None
     end
   | None => None
+  end.
+
+(** the same request on a FRESH Mux on which the same registration ATTEMPTS were made (rejected ones recovered) *)
+Definition fresh_core_attempts (attempts : list (list N * list N)) (path method : list N) (names : list (list N))
+  : option (target * list (option (list N)) * option (list N)) :=
+  match serve_http (register_attempts attempts) path method with
+  | Some [Call tg ps] => Some (tg, map (route_param_of ps) names, route_param_any_of ps)
+  | _ => None
   end.
 
 (** ** the two repaired defects: findRoute reslicing within capacity, ServeHTTP not resetting P.K *)
@@ -255,7 +261,7 @@ Fixpoint begin_ids (m : mux) (ls : list label) : list (list N) :=
     end
   end.
 
-(** the routes accepted along a run are exactly its LRegister labels *)
+(** the registration attempts along a run (accepted or rejected): its LRegister labels *)
 Fixpoint registered (ls : list label) : list (list N * list N) :=
   match ls with
   | [] => []
